@@ -1,6 +1,6 @@
 (* RangeTask/ProofsProps.v -- the assembled proofs of the Props.v statements that are not a single library lemma *)
 From Verif Require Import Base.Lex RangeTask.Model RangeTask.ProofsOrd RangeTask.ProofsStore RangeTask.ProofsPart
-  RangeTask.ProofsInv RangeTask.ProofsScan RangeTask.ProofsGc RangeTask.ProofsOut RangeTask.ProofsDel RangeTask.ProofsTerm RangeTask.ProofsAsync RangeTask.ProofsVis RangeTask.ModelView RangeTask.ProofsView.
+  RangeTask.ProofsInv RangeTask.ProofsScan RangeTask.ProofsGc RangeTask.ProofsOut RangeTask.ProofsDel RangeTask.ProofsTerm RangeTask.ProofsAsync RangeTask.ProofsVis RangeTask.ModelView RangeTask.ProofsView RangeTask.ModelLayout RangeTask.ProofsLayout.
 Open Scope N_scope.
 
 Lemma C14_partition_proof : forall (batch_end : nat -> list N -> list N) fuel s e subs,
@@ -112,4 +112,23 @@ Proof.
   exists (mkRec [2] (Some (mkLock 10 [3] LPut [2])) []), (mkLock 10 [3] LPut [2]), 15.
   split; [right; left; reflexivity|]. split; [reflexivity|]. split; [reflexivity|]. split; [vm_compute; discriminate|].
   split; vm_compute; reflexivity.
+Qed.
+
+(* ------------------------------------------------------------------ regions predicted from ANY sequence of layouts *)
+Lemma gc_layouts : forall st0 sp limit s e fuel ys,
+  wf_store st0 -> (0 < limit)%nat ->
+  ((fuel <= length ys)%nat -> fst (gc_resolve_range_l fuel sp limit s e ys st0) <> GcBadOracle) /\
+  (forall st' tr os, gc_resolve_range_l fuel sp limit s e ys st0 = (GcOk st' tr, os) ->
+     (forall r, In r st' -> in_range s e (k_key r) = true -> old_lock sp r = false) /\
+     (forall r', In r' st' -> exists r0, In r0 st0 /\ k_key r0 = k_key r' /\ (r' = r0 \/ r' = resolve_by_outcome st0 sp r0)) /\
+     (s = [] -> e = [] -> st' = resolve_all st0 sp)).
+Proof.
+  intros st0 sp limit s e fuel ys Hwf Hl. split.
+  - intros Hlen. unfold gc_resolve_range_l. eapply gc_loop_l_not_bad; eassumption.
+  - intros st' tr os H. unfold gc_resolve_range_l in H.
+    destruct (gc_loop_l_spec st0 sp Hwf limit s e Hl fuel ys st0 s st' tr os (InvP_init st0 sp) (cleared_start sp s st0) H) as [HI Hc].
+    split; [exact Hc|]. split.
+    + intros r' Hin. destruct (proj2 HI _ Hin) as (r0 & Hin0 & Hr). exists r0. split; [exact Hin0|]. split; [symmetry; eapply rel0_key; exact Hr|].
+      destruct Hr as [Hr|[_ Hr]]; [left|right]; exact Hr.
+    + intros -> ->. apply (whole_pass st0 sp Hwf st' HI). intros r Hin. apply Hc; [exact Hin|]. apply in_range_iff. split; [apply lex_nil_le|left; reflexivity].
 Qed.
